@@ -132,15 +132,17 @@ class RequestHandlerBase(MethodView):
         start_str, end_str = http_range[6:].split('-')
 
         if start_str == '':
+            # a suffix longer than the resource selects the whole resource
             amount: int = int(end_str, 10)
-            start = content_length - amount
+            start = max(0, content_length - amount)
             end = content_length - 1
         else:
             start = int(start_str, 10)
             if end_str == '':
                 end = content_length - 1
             else:
-                end = int(end_str, 10)
+                # a last-byte-pos beyond the end is clamped to the last byte
+                end = min(int(end_str, 10), content_length - 1)
 
         status: int = 206
         headers: dict[str, str] = {
